@@ -272,7 +272,7 @@ func cmdCheck(args []string) int {
 	// only what is still undecided then is reported.
 	var retry []int
 	for i, r := range results {
-		if r.Status == "unknown" && !r.Obl.ExpSat && r.Obl.Static == "" && !v.isKnownFinding(r.Obl.Name) {
+		if r.Status == "unknown" && r.Obl.Static == "" && !v.isKnownFinding(r.Obl.Name) {
 			retry = append(retry, i)
 		}
 	}
